@@ -24,7 +24,8 @@ TRUSTED_BASE = [
     "coq/Lib/C21_Pct.v and coq/C21/Model.v and tied to the running interpreter only by the correspondence cases",
     "html.unescape: numeric references are modelled fully; of the named references only amp/lt/gt/quot (with or without ';') and apos; "
     "are modelled, any other name is reported as OutsideModel by both the model and an independent regex-based predicate in this harness",
-    "json_decode (json.loads) is not modelled in Coq: the decode half of the JSON round trip is checked by py_check only",
+    "json_decode is modelled for str input only (the C scanner of json.loads with default options; floats/NaN/Infinity are consumed but reported as OutsideModel); "
+    "bytes input to json_decode (encoding detection) is exercised by py_check only",
     "recursive_unicode: dictionary keys are restricted to None/int/str/bytes",
 ]
 ASSUMPTIONS = [
@@ -212,6 +213,36 @@ def qs_obs(val, keep, strict):
     return out
 
 
+class _Float(Exception):
+    pass
+
+
+def o_jv(x):
+    if x is None or isinstance(x, bool) or isinstance(x, int):
+        return x
+    if isinstance(x, float):
+        raise _Float()
+    if isinstance(x, str):
+        return [T("str"), x]
+    if isinstance(x, list):
+        return [T("list"), [o_jv(i) for i in x]]
+    if isinstance(x, dict):
+        return [T("dict"), [[k, o_jv(v)] for k, v in x.items()]]
+    raise TypeError(type(x))
+
+
+def jdec_obs(text):
+    from tornado import escape
+    try:
+        r = escape.json_decode(text)
+    except ValueError:
+        return T("ValueError")
+    try:
+        return o_jv(r)
+    except _Float:
+        return T("OutsideModel")
+
+
 def run_impl(case):
     from tornado import escape
     op = case["op"]
@@ -232,7 +263,10 @@ def run_impl(case):
     if op == "urlun":
         return url_unesc_obs(py_sval(case["v"]), "utf-8" if case["enc"] else None, case["plus"])
     if op == "json":
-        return ostr(escape.json_encode(py_jv(case["v"])))
+        e = escape.json_encode(py_jv(case["v"]))
+        return [ostr(e), jdec_obs(e)]
+    if op == "jsondec":
+        return jdec_obs(py_sval(case["v"]))
     if op == "utf8":
         try:
             r = escape.utf8(py_pv(case["v"]))
@@ -287,6 +321,8 @@ def coq_input(case):
         return "(IUrlUn %s %s %s)" % (g_sval(case["v"]), "EncUtf8" if case["enc"] else "EncNone", G.gbool(case["plus"]))
     if op == "json":
         return "(IJson %s)" % g_jv(case["v"])
+    if op == "jsondec":
+        return "(IJsonDec %s)" % gcps(case["v"][1])
     if op == "utf8":
         return "(IUtf8 %s)" % g_pv(case["v"])
     if op == "touni":
@@ -350,7 +386,7 @@ def py_check(case, o):
         return True
     if op == "json":
         val = py_jv(case["v"])
-        enc = o[1]
+        enc = o[0][1]
         if "</" in enc:
             return False
         if _has_surrogate_pair(case["v"]):
@@ -477,6 +513,14 @@ URL_PIECES = ["\ufeff", "%EF%BB%BF", "%ef%bb", "\ufffe", "%41", "%e9", "%E9", "%
 QS_PIECES = ["%EF%BB%BF", "a", "b", "=", "&", "+", "%41", "%4", "%", "%zz", "%e9", "%26", "%3D", "%2B", "é", "ÿ", ";", " ", "a=1", "&&", "==", "a=&", "=b"]
 
 
+JDEC_PIECES = ["{", "}", "[", "]", ",", ":", "\"", "\"a\"", "\"\\u00e9\"", "\"\\ud83d\\ude00\"", "\"\\uD83D\\uDE00\"", "\"\\ud83d\"",
+               "\"\\ud83dx\"", "\"\\ud83d\\u0041\"", "\"\\udc00\"", "\"\\ud83d\\ude0\"", "\"\\ud83d\\ude0g\"", "\\", "\"\\/\"", "\"<\\/\"", "\"\\x\"",
+               "\"\\n\\t\\r\\b\\f\\\\\\\"\"", " ", "\n", "\t", "\r", "\x0c", "null", "true", "false", "nul", "tru", "NaN", "Infinity", "-Infinity", "-Inf",
+               "-", "0", "01", "-0", "-01", "12", "1.5", "1.", "1e5", "1e", "1E+5", "1e+", "1e-", "1.5e-3", ".5", "-.5", "12345678901234567890123",
+               "\"\\u12g4\"", "\"\\u12\"", "\"\x01\"", "\"\x1f\"", "\"\x7f\"", "\ufeff", "\"k\":1", "{\"a\":1,\"a\":2,\"b\":3,\"a\":4}", "[1,]", "[,1]",
+               "{\"a\"}", "{\"a\":}", "{1:2}", "{\"a\":1,}", "\"é€\U0001F600\"", "[[]]", "{}", "[ ]", "{ }", "[1 ,2]", "{\"a\" : [ ] }", "\xa0", "'a'", "u"]
+
+
 def rconcat(rng, pieces, n=None):
     n = rng.randrange(0, 6) if n is None else n
     return "".join(rng.choice(pieces) for _ in range(n))
@@ -542,6 +586,12 @@ def rpv(rng, depth=0, scalar=False):
         seen.add(key)
         items.append([k, rpv(rng, depth + 1)])
     return ["dict", items]
+
+
+def _esc_json(v):
+    """json.dumps of a generated value (stdlib only: used to build damaged inputs for json_decode, not as an oracle)"""
+    import json as _json
+    return _json.dumps(py_jv(v))
 
 
 def C(op, **kw):
@@ -664,6 +714,29 @@ def gen_cases(rng, tier):
     # ---- JSON
     for _ in range(150 * k):
         out.append(C("json", v=rjv(rng)))
+    # ---- json_decode on arbitrary text: pieces, and damaged encodings of random values
+    for p in JDEC_PIECES:
+        out.append(C("jsondec", v=s_(p)))
+    for _ in range(200 * k):
+        out.append(C("jsondec", v=s_(rconcat(rng, JDEC_PIECES, rng.randrange(1, 6)))))
+    for _ in range(100 * k):
+        e = list(_esc_json(rjv(rng)))
+        r = rng.random()
+        if e and r < 0.3:
+            del e[rng.randrange(len(e))]
+        elif r < 0.6:
+            e.insert(rng.randrange(len(e) + 1), rng.choice(" \n\t,:]}[{\"\\0e.-"))
+        elif e and r < 0.8:
+            i = rng.randrange(len(e))
+            e[i] = rng.choice(" ,:]}[{\"\\1a")
+        out.append(C("jsondec", v=s_("".join(e))))
+    if thorough:
+        for n in range(0, 5):
+            for tup in itertools.product("[]{},:\"1", repeat=n):
+                out.append(C("jsondec", v=s_("".join(tup))))
+        for tup in itertools.product(["\"", "\\", "u", "d", "8", "c", "0", "/", "n"], repeat=5):
+            if rng.random() < 0.03:
+                out.append(C("jsondec", v=s_("\"" + "".join(tup) + "\"")))
     for c in list(range(0, 0x30)) + [0x5C, 0x7E, 0x7F, 0x80, 0xFF, 0x100, 0xFFF, 0x1000, 0xD7FF, 0xD800, 0xDFFF, 0xE000, 0xFFFF, 0x10000, 0x103FF, 0x10400, 0x10FFFF]:
         out.append(C("json", v=["str", [c]]))
     for z in [0, 1, -1, 9, 10, 99, 100, -100, 2 ** 63, -2 ** 63 - 1, 10 ** 30]:
@@ -735,7 +808,7 @@ def classify(case, o):
         yield "result=" + str(o)
     elif isinstance(o, list) and len(o) == 1 and isinstance(o[0], G.Tag):
         yield "result=" + str(o[0])
-    if case["op"] in ("html", "htmlun", "url", "urlun", "qs"):
+    if case["op"] in ("html", "htmlun", "url", "urlun", "qs", "jsondec"):
         yield "arg=" + ("str" if case["v"][0] == "s" else "bytes")
         n = len(case["v"][1])
         yield "len=" + ("0" if n == 0 else "1" if n == 1 else "2-8" if n <= 8 else "9+")
@@ -758,7 +831,7 @@ def shrink(case):
                 yield dict(case, ps=ps[:i] + [[k, v[:-1]]] + ps[i + 1:])
         return
     v = case["v"]
-    if op in ("html", "htmlun", "url", "urlun", "qs"):
+    if op in ("html", "htmlun", "url", "urlun", "qs", "jsondec"):
         kind, data = v
         if data:
             yield dict(case, v=[kind, data[: len(data) // 2]])
@@ -780,9 +853,11 @@ def shrink(case):
 LEVEL_TEXT = ("Machine-checked (Coq) proofs over a hand-written executable model of tornado.escape and the standard-library routines it wraps: "
               "xhtml_unescape(xhtml_escape(s)) = s and the escaped text contains no <, >, quote, apostrophe and no & outside the five entities; "
               "url_unescape(url_escape(x)) = x in both plus modes, for text and for the bytes-returning form; the UTF-8 encoder and strict decoder "
-              "are mutually inverse; json_encode output never contains '</'; parse_qs_bytes of an escaped name=value list returns exactly the grouped pairs. "
+              "are mutually inverse; json_encode output never contains '</' and json_decode(json_encode(v)) = v for every JSON value without floats "
+              "and lone surrogates (a model of the json.loads scanner is proved to invert the printer followed by the '</' replacement); "
+              "recursive_unicode leaves no byte string; parse_qs_bytes of an escaped name=value list returns exactly the grouped pairs. "
               "The model is compared with the running implementation on generated and exhaustively enumerated small inputs.")
 LEVEL_NOTE = ("Trusted: Coq kernel/vm_compute; the hand-written model of CPython's html/urllib.parse/json/codecs behaviour, tied to the interpreter "
-              "only by the correspondence run; the harness. json_decode is not modelled (JSON round trip checked in Python only); named HTML "
+              "only by the correspondence run; the harness. json_decode of bytes and floats are not modelled; named HTML "
               "references other than the five produced ones are outside the model.")
 TECHNIQUE = "Coq proofs (structural induction, transducer run lemmas, lia with div/mod) + differential correspondence via vm_compute"
